@@ -17,7 +17,7 @@ vf::Shape shape() {
   sh.n_points = 1;
   sh.tp = TP_INJ;
   sh.ep = EP_ALL;
-  sh.ints = {{0, kNumOps - 1}};
+  sh.ints = {{0, kNumOps - 1}, {0, 1}};   // operation/argument pair; 1 = request ONLY the Jacobian under test
   sh.is_float = kIsFloat;
   return sh;
 }
@@ -29,10 +29,14 @@ using JacAv = Eigen::Matrix<Scalar, GroupT::Dim, GroupT::Dim>;
 struct OpDesc { const char* name; Op op; int wrt; bool needs_log; };
 
 // evaluates the analytic Jacobian of operation `idx`; fills name/op/wrt and the reference arguments
-static bool analytic(int idx, const GroupT& X, const GroupT& Y, const TangentT& T, const TangentT& S2,
+using Opt = typename GroupT::OptJacobianRef;
+static bool analytic(int idx, bool only, const GroupT& X, const GroupT& Y, const TangentT& T, const TangentT& S2,
                      const typename GroupT::Vector& pt, OpDesc& d, MatL& J, VecL& a0, VecL& a1) {
   Jac Ja, Jb;
   Ja.setConstant(Scalar(7)); Jb.setConstant(Scalar(7));
+  // the Jacobian under test is always requested; the other one only when `only` is false
+  auto A = [&](bool under_test) { return (under_test || !only) ? Opt(Ja) : Opt{}; };
+  auto B = [&](bool under_test) { return (under_test || !only) ? Opt(Jb) : Opt{}; };
   const VecL xc = toVL(X.coeffs()), yc = toVL(Y.coeffs()), t = toVL(T.coeffs()), s2 = toVL(S2.coeffs()), pv = toVL(pt);
   auto set = [&](const char* n, Op op, int wrt, bool nl, const VecL& A0, const VecL& A1, const MatL& Jm) {
     d = OpDesc{n, op, wrt, nl}; a0 = A0; a1 = A1; J = Jm;
@@ -41,35 +45,35 @@ static bool analytic(int idx, const GroupT& X, const GroupT& Y, const TangentT& 
     case 0: X.inverse(Ja); set("inverse", OP_INVERSE, 0, false, xc, xc, toML(Ja)); return true;
     case 1: X.log(Ja); set("log", OP_LOG, 0, true, xc, xc, toML(Ja)); return true;
     case 2: T.exp(Ja); set("exp", OP_EXP, 0, false, t, t, toML(Ja)); return true;
-    case 3: X.compose(Y, Ja, Jb); set("compose/a", OP_COMPOSE, 0, false, xc, yc, toML(Ja)); return true;
-    case 4: X.compose(Y, Ja, Jb); set("compose/b", OP_COMPOSE, 1, false, xc, yc, toML(Jb)); return true;
-    case 5: X.between(Y, Ja, Jb); set("between/a", OP_BETWEEN, 0, false, xc, yc, toML(Ja)); return true;
-    case 6: X.between(Y, Ja, Jb); set("between/b", OP_BETWEEN, 1, false, xc, yc, toML(Jb)); return true;
-    case 7: X.rplus(T, Ja, Jb); set("rplus/m", OP_RPLUS, 0, false, xc, t, toML(Ja)); return true;
-    case 8: X.rplus(T, Ja, Jb); set("rplus/t", OP_RPLUS, 1, false, xc, t, toML(Jb)); return true;
-    case 9: X.lplus(T, Ja, Jb); set("lplus/m", OP_LPLUS, 0, false, xc, t, toML(Ja)); return true;
-    case 10: X.lplus(T, Ja, Jb); set("lplus/t", OP_LPLUS, 1, false, xc, t, toML(Jb)); return true;
-    case 11: X.plus(T, Ja, Jb); set("plus/m", OP_RPLUS, 0, false, xc, t, toML(Ja)); return true;
-    case 12: X.plus(T, Ja, Jb); set("plus/t", OP_RPLUS, 1, false, xc, t, toML(Jb)); return true;
-    case 13: X.rminus(Y, Ja, Jb); set("rminus/a", OP_RMINUS, 0, true, xc, yc, toML(Ja)); return true;
-    case 14: X.rminus(Y, Ja, Jb); set("rminus/b", OP_RMINUS, 1, true, xc, yc, toML(Jb)); return true;
-    case 15: X.lminus(Y, Ja, Jb); set("lminus/a", OP_LMINUS, 0, true, xc, yc, toML(Ja)); return true;
-    case 16: X.lminus(Y, Ja, Jb); set("lminus/b", OP_LMINUS, 1, true, xc, yc, toML(Jb)); return true;
-    case 17: X.minus(Y, Ja, Jb); set("minus/a", OP_RMINUS, 0, true, xc, yc, toML(Ja)); return true;
-    case 18: X.minus(Y, Ja, Jb); set("minus/b", OP_RMINUS, 1, true, xc, yc, toML(Jb)); return true;
-    case 19: { JacAm Jm; JacAv Jv; X.act(pt, Jm, Jv); set("act/m", OP_ACT, 0, false, xc, pv, toML(Jm)); return true; }
-    case 20: { JacAm Jm; JacAv Jv; X.act(pt, Jm, Jv); set("act/v", OP_ACT, 1, false, xc, pv, toML(Jv)); return true; }
+    case 3: X.compose(Y, A(true), B(false)); set("compose/a", OP_COMPOSE, 0, false, xc, yc, toML(Ja)); return true;
+    case 4: X.compose(Y, A(false), B(true)); set("compose/b", OP_COMPOSE, 1, false, xc, yc, toML(Jb)); return true;
+    case 5: X.between(Y, A(true), B(false)); set("between/a", OP_BETWEEN, 0, false, xc, yc, toML(Ja)); return true;
+    case 6: X.between(Y, A(false), B(true)); set("between/b", OP_BETWEEN, 1, false, xc, yc, toML(Jb)); return true;
+    case 7: X.rplus(T, A(true), B(false)); set("rplus/m", OP_RPLUS, 0, false, xc, t, toML(Ja)); return true;
+    case 8: X.rplus(T, A(false), B(true)); set("rplus/t", OP_RPLUS, 1, false, xc, t, toML(Jb)); return true;
+    case 9: X.lplus(T, A(true), B(false)); set("lplus/m", OP_LPLUS, 0, false, xc, t, toML(Ja)); return true;
+    case 10: X.lplus(T, A(false), B(true)); set("lplus/t", OP_LPLUS, 1, false, xc, t, toML(Jb)); return true;
+    case 11: X.plus(T, A(true), B(false)); set("plus/m", OP_RPLUS, 0, false, xc, t, toML(Ja)); return true;
+    case 12: X.plus(T, A(false), B(true)); set("plus/t", OP_RPLUS, 1, false, xc, t, toML(Jb)); return true;
+    case 13: X.rminus(Y, A(true), B(false)); set("rminus/a", OP_RMINUS, 0, true, xc, yc, toML(Ja)); return true;
+    case 14: X.rminus(Y, A(false), B(true)); set("rminus/b", OP_RMINUS, 1, true, xc, yc, toML(Jb)); return true;
+    case 15: X.lminus(Y, A(true), B(false)); set("lminus/a", OP_LMINUS, 0, true, xc, yc, toML(Ja)); return true;
+    case 16: X.lminus(Y, A(false), B(true)); set("lminus/b", OP_LMINUS, 1, true, xc, yc, toML(Jb)); return true;
+    case 17: X.minus(Y, A(true), B(false)); set("minus/a", OP_RMINUS, 0, true, xc, yc, toML(Ja)); return true;
+    case 18: X.minus(Y, A(false), B(true)); set("minus/b", OP_RMINUS, 1, true, xc, yc, toML(Jb)); return true;
+    case 19: { JacAm Jm; JacAv Jv; if (only) X.act(pt, Jm, tl::optional<Eigen::Ref<JacAv>>{}); else X.act(pt, Jm, Jv); set("act/m", OP_ACT, 0, false, xc, pv, toML(Jm)); return true; }
+    case 20: { JacAm Jm; JacAv Jv; if (only) X.act(pt, tl::optional<Eigen::Ref<JacAm>>{}, Jv); else X.act(pt, Jm, Jv); set("act/v", OP_ACT, 1, false, xc, pv, toML(Jv)); return true; }
     // tangent-side forms: t.rplus(X, J_t, J_m) = X.rplus(t), t.lplus(X, J_t, J_m) = t.plus(X) = X.lplus(t)
-    case 21: T.rplus(X, Ja, Jb); set("t.rplus/t", OP_RPLUS, 1, false, xc, t, toML(Ja)); return true;
-    case 22: T.rplus(X, Ja, Jb); set("t.rplus/m", OP_RPLUS, 0, false, xc, t, toML(Jb)); return true;
-    case 23: T.lplus(X, Ja, Jb); set("t.lplus/t", OP_LPLUS, 1, false, xc, t, toML(Ja)); return true;
-    case 24: T.lplus(X, Ja, Jb); set("t.lplus/m", OP_LPLUS, 0, false, xc, t, toML(Jb)); return true;
-    case 25: T.plus(X, Ja, Jb); set("t.plus(X)/t", OP_LPLUS, 1, false, xc, t, toML(Ja)); return true;
-    case 26: T.plus(X, Ja, Jb); set("t.plus(X)/m", OP_LPLUS, 0, false, xc, t, toML(Jb)); return true;
-    case 27: T.plus(S2, Ja, Jb); set("t.plus(t)/a", OP_TPLUS, 0, false, t, s2, toML(Ja)); return true;
-    case 28: T.plus(S2, Ja, Jb); set("t.plus(t)/b", OP_TPLUS, 1, false, t, s2, toML(Jb)); return true;
-    case 29: T.minus(S2, Ja, Jb); set("t.minus(t)/a", OP_TMINUS, 0, false, t, s2, toML(Ja)); return true;
-    case 30: T.minus(S2, Ja, Jb); set("t.minus(t)/b", OP_TMINUS, 1, false, t, s2, toML(Jb)); return true;
+    case 21: T.rplus(X, A(true), B(false)); set("t.rplus/t", OP_RPLUS, 1, false, xc, t, toML(Ja)); return true;
+    case 22: T.rplus(X, A(false), B(true)); set("t.rplus/m", OP_RPLUS, 0, false, xc, t, toML(Jb)); return true;
+    case 23: T.lplus(X, A(true), B(false)); set("t.lplus/t", OP_LPLUS, 1, false, xc, t, toML(Ja)); return true;
+    case 24: T.lplus(X, A(false), B(true)); set("t.lplus/m", OP_LPLUS, 0, false, xc, t, toML(Jb)); return true;
+    case 25: T.plus(X, A(true), B(false)); set("t.plus(X)/t", OP_LPLUS, 1, false, xc, t, toML(Ja)); return true;
+    case 26: T.plus(X, A(false), B(true)); set("t.plus(X)/m", OP_LPLUS, 0, false, xc, t, toML(Jb)); return true;
+    case 27: T.plus(S2, A(true), B(false)); set("t.plus(t)/a", OP_TPLUS, 0, false, t, s2, toML(Ja)); return true;
+    case 28: T.plus(S2, A(false), B(true)); set("t.plus(t)/b", OP_TPLUS, 1, false, t, s2, toML(Jb)); return true;
+    case 29: T.minus(S2, A(true), B(false)); set("t.minus(t)/a", OP_TMINUS, 0, false, t, s2, toML(Ja)); return true;
+    case 30: T.minus(S2, A(false), B(true)); set("t.minus(t)/b", OP_TMINUS, 1, false, t, s2, toML(Jb)); return true;
   }
   return false;
 }
@@ -86,12 +90,13 @@ vf::Outcome run_case(const vf::Case& c, const vf::RunCtx& ctx) {
   OpDesc d{};
   MatL J; VecL a0, a1;
   try {
-    analytic(idx, X, Y, T, S2, pt, d, J, a0, a1);
+    analytic(idx, c.ints[1] != 0, X, Y, T, S2, pt, d, J, a0, a1);
   } catch (const std::exception& e) {
     k.require("nothrow", false, std::string("exception: ") + e.what());
     return k.o;
   }
   k.label(std::string("op=") + d.name);
+  k.label(c.ints[1] ? "only the Jacobian under test requested" : "both Jacobians requested");
 
   // domain: the logarithm involved must stay away from the cut (property: up to pi - 1e-6)
   LD cut_angle = 0;
